@@ -26,6 +26,7 @@ class VLoop(asyncio.SelectorEventLoop):
         self.transports = []       # every FakeTransport handed out
         self.network = None        # object with .attach(transport) / .sendto(transport, data, addr)
         self.iterations = 0
+        self.on_iter = None        # optional callback run after every loop iteration (used to observe suspension points exactly)
 
     def time(self):
         return self._vt
@@ -58,6 +59,8 @@ class VLoop(asyncio.SelectorEventLoop):
             self._ready.clear()
             self._ready.extend(items)
         super()._run_once()
+        if self.on_iter is not None:
+            self.on_iter()
 
     def advance(self, dt):
         """run the loop for dt virtual seconds"""
